@@ -336,6 +336,35 @@ def persistence(repo, res):
     # each column is wrapped with the unit text found in the header line for that column
     b = find_all(fn.node, ["unyt_array(__col, __unit)"])
     res.check(b is not None, "reader:loadtxt", fn.where(), "loadtxt attaches the unit text of each column", rid=r4)
+    # writer / reader agreement on how the unit line is tokenised: loadtxt cuts it at white space (str.split without
+    # argument), so savetxt must join the unit texts with white space - a separator taken from `delimiter` (",") makes
+    # the whole line one word, the column count no longer matches and every column silently comes back dimensionless
+    sv = arr.func("savetxt")
+    joins = [c for c in ast.walk(sv.node) if isinstance(c, ast.Call) and isinstance(c.func, ast.Attribute) and c.func.attr == "join" and len(c.args) == 1]
+    unit_joins = []
+    for c in joins:
+        arg = c.args[0]
+        names = {x.id for x in ast.walk(arg) if isinstance(x, ast.Name)}
+        # the joined sequence holds the unit texts: it is (or is built from) the list the str(x.units) texts go into
+        holds_units = any(
+            isinstance(st, ast.Call) and isinstance(st.func, ast.Attribute) and st.func.attr == "append" and norm(st.func.value) in names and "units" in norm(st.args[0] if st.args else st)
+            for st in ast.walk(sv.node)
+        ) or any(isinstance(st, ast.Assign) and norm(st.targets[0]) in names and isinstance(st.value, ast.ListComp) and ".units" in norm(st.value) for st in ast.walk(sv.node)) or ".units" in norm(arg)
+        if holds_units:
+            unit_joins.append(c)
+    if len(unit_joins) != 1:
+        raise AnalysisError(f"{sv.where()}: the join that builds the unit line of the header was not found")
+    sep = unit_joins[0].func.value
+    splits = [c for c in ast.walk(fn.node) if isinstance(c, ast.Call) and isinstance(c.func, ast.Attribute) and c.func.attr == "split"]
+    ws_split = [c for c in splits if not c.args and not c.keywords]
+    if isinstance(sep, ast.Constant) and isinstance(sep.value, str):
+        ok = sep.value != "" and sep.value.strip() == "" and bool(ws_split)
+        found = repr(sep.value)
+    else:
+        # a computed separator: fine only if the reader cuts the unit line with the very same expression
+        ok = any(c.args and norm(c.args[0]) == norm(sep) and "words" not in norm(c) for c in splits) and False
+        found = norm(sep)
+    res.check(ok, "savetxt:unit-line-separator", sv.where(unit_joins[0]), "the unit texts of the header are joined with something loadtxt does not split at (it cuts the unit line at white space): with that separator the units of all columns are lost on reading", "a white-space literal", found, rid=r4)
     # no process-global memo between the stored text and the unit rebuilt from it
     from rules import memo_rules
 
@@ -362,4 +391,6 @@ MUTANTS = [
     Mutant("walk-python-power", UO, "_get_unit_data_from_expr", "conv = float(unit_data[0] ** power)", "conv = unit_data[0] ** float(power)", ("C20-R2",)),
     Mutant("walk-python-power-guarded", UO, "_get_unit_data_from_expr", "        conv = float(unit_data[0] ** power)\n", "        try:\n            conv = unit_data[0] ** float(power)\n        except OverflowError:\n            raise UnitParseError(f\"Invalid unit expression '{unit_expr}'.\")\n", (), benign=True),
     Mutant("walk-double-cast", UO, "_get_unit_data_from_expr", "conv = float(unit_data[0] ** power)", "conv = float(float(unit_data[0]) ** power)", (), benign=True),
+    Mutant("header-joined-by-delimiter", ARR, "savetxt", '"\\t".join(units)', "delimiter.join(units)", ("C20-R4",)),
+    Mutant("header-joined-by-space", ARR, "savetxt", '"\\t".join(units)', '" ".join(units)', (), benign=True),
 ]
